@@ -51,6 +51,7 @@ fn generate(corpus: &Corpus, tier: Tier, run: u64, rng: &mut Rng) -> Option<Case
         resets: rng.chance(1, 6),
         continue_max: rng.chance(1, 2),
         jump_functions: false,
+        eval_any_knot: false,
     };
     let ops = gen_script(rng, &prog, &cfg);
     let mut tail = gen_tail(rng, 3);
